@@ -64,7 +64,12 @@ func (e *Env) NewULID(n int) string {
 }
 
 func dsConfig(sc *gen.Scenario) simstore.DSConfig {
+	var panicIn []string
+	if sc.Knob("panic_in_pipeline_only", 0) == 1 {
+		panicIn = []string{"internal/listobjects/pipeline"}
+	}
 	return simstore.DSConfig{
+		PanicOnlyIn: panicIn,
 		Faults:     int(sc.Knob("faults", 0)),
 		FaultRate:  float64(sc.Knob("fault_rate_pm", 30)) / 1000.0,
 		MaxLatency: time.Duration(sc.Knob("max_latency_ns", 20000)),
